@@ -78,8 +78,9 @@ pub(super) fn parse(mut s: &str) -> Result<Genotype, ParseError> {
 }
 
 fn next_allele<'a>(s: &mut &'a str) -> &'a str {
-    let (t, rest) = match s.chars().skip(1).position(is_phasing_indicator) {
-        Some(i) => s.split_at(i + 1),
+    // Byte (not character) offsets are needed to split the string.
+    let (t, rest) = match s.char_indices().skip(1).find(|&(_, c)| is_phasing_indicator(c)) {
+        Some((i, _)) => s.split_at(i),
         None => s.split_at(s.len()),
     };
 
@@ -95,9 +96,15 @@ fn is_phasing_indicator(c: char) -> bool {
 fn parse_first_allele(s: &str) -> Result<(Option<usize>, Option<Phasing>), allele::ParseError> {
     use super::allele::{parse_phasing, parse_position};
 
-    match parse_phasing(&s[..1]) {
-        Ok(phasing) => {
-            let position = parse_position(&s[1..])?;
+    // The first character may be multibyte, in which case it is not a phasing indicator.
+    let first = s
+        .split_at_checked(1)
+        .ok_or(allele::ParseError::InvalidPhasing)
+        .and_then(|(raw_phasing, rest)| parse_phasing(raw_phasing).map(|phasing| (phasing, rest)));
+
+    match first {
+        Ok((phasing, rest)) => {
+            let position = parse_position(rest)?;
             Ok((position, Some(phasing)))
         }
         Err(_) => {
